@@ -54,11 +54,6 @@ Definition Wave_Spec (wmi : mat) (t : mat) (v : QN) (au : Z) (factor : QN) (inds
       nth_error (nth s w []) j =
       Some (q_mul (q_mul (q_ofZ (unwh wmi t s c)) (q_div v (q_ofZ au))) factor).
 
-(* ---------- raw indices ---------- *)
-(* the merged dataset Merger.write_channel_data writes for per-probe channel maps cms:
-   block k of the merged map is cms[k] shifted, block k of the probe table is the constant k *)
-Definition Blocks {A} (blocks : list (list A)) (whole : list A) : Prop := whole = concat blocks.
-
 (* ================= boolean checkers ================= *)
 Definition memn (x : nat) (l : list nat) : bool := existsb (Nat.eqb x) l.
 Fixpoint nodupn_b (l : list nat) : bool :=
